@@ -438,6 +438,8 @@ func TestC06IndexPaging(t *testing.T) {
 		q := g.Tree(t, "q", 1)
 		sortSpec := rapid.SampledFrom(c06IndexSorts()).Draw(t, "sort")
 		typed := rapid.Bool().Draw(t, "typedSort")
+		missingFirst := typed && rapid.Bool().Draw(t, "missingFirst")
+		reuse := rapid.Bool().Draw(t, "reuseRequest")
 		mk := func(size, from int) *bleve.SearchRequest {
 			req := bleve.NewSearchRequestOptions(q.Bleve(), size, from, false)
 			if typed {
@@ -455,6 +457,9 @@ func TestC06IndexPaging(t *testing.T) {
 						default:
 							sf.Type = search.SortFieldAsString
 							sf.Mode = search.SortFieldMin
+						}
+						if missingFirst {
+							sf.Missing = search.SortFieldMissingFirst
 						}
 					}
 					so = append(so, ss)
@@ -508,6 +513,7 @@ func TestC06IndexPaging(t *testing.T) {
 			}
 		}
 		afterChecked := 0
+		var reusedAfter, reusedBefore *bleve.SearchRequest
 		if !usesScore {
 			for i, h := range fres.Hits {
 				keys := h.Sort
@@ -517,7 +523,15 @@ func TestC06IndexPaging(t *testing.T) {
 				if numericUntyped {
 					keys = h.Sort
 				}
+				// either a fresh request per page or one request object re-used for every page, as
+				// a caller paging through results would
 				ra := mk(size, 0)
+				if reuse {
+					if reusedAfter == nil {
+						reusedAfter, reusedBefore = mk(size, 0), mk(size, 0)
+					}
+					ra = reusedAfter
+				}
 				ra.SetSearchAfter(keys)
 				if err := ra.Validate(); err != nil {
 					t.Fatalf("search-after request with keys %q of hit %s rejected: %v", keys, h.ID, err)
@@ -534,6 +548,9 @@ func TestC06IndexPaging(t *testing.T) {
 					t.Fatalf("query %s sort %v typed=%v on %s: SearchAfter(%s keys %q) returned %v, want %v (full order %v)", q, sortSpec, typed, c.Cfg, h.ID, keys, got, want, all)
 				}
 				rb := mk(size, 0)
+				if reuse {
+					rb = reusedBefore
+				}
 				rb.SetSearchBefore(keys)
 				bres, err := SearchWatchdog(c.Idx, rb)
 				if err != nil {
@@ -550,7 +567,18 @@ func TestC06IndexPaging(t *testing.T) {
 			}
 		}
 		// the ordering itself: sorted by the model's keys (ties broken by _id, which is in every spec)
-		if msg := c06CheckOrder(c.Model, all, sortSpec, typed); msg != "" {
+		if reuse && reusedBefore != nil {
+			// the request used for all those pages still lists the same ordering
+			reusedBefore.SearchBefore, reusedBefore.Size, reusedBefore.From = nil, 50, 0
+			rres, err := SearchWatchdog(c.Idx, reusedBefore)
+			if err != nil {
+				t.Fatalf("re-used request: %v", err)
+			}
+			if got := hitIDs(rres); strings.Join(got, ",") != strings.Join(all, ",") {
+				t.Fatalf("query %s sort %v typed=%v missingFirst=%v on %s: the request object used for the SearchBefore pages now lists %v, a fresh request lists %v", q, sortSpec, typed, missingFirst, c.Cfg, got, all)
+			}
+		}
+		if msg := c06CheckOrder(c.Model, all, sortSpec, typed, missingFirst); msg != "" {
 			t.Fatalf("query %s sort %v typed=%v on %s: %s (order %v)", q, sortSpec, typed, c.Cfg, msg, all)
 		}
 		nt := n >= 3 && size < n
@@ -569,7 +597,7 @@ func TestC06IndexPaging(t *testing.T) {
 
 // c06CheckOrder verifies that ids are ordered by the sort spec according to the model
 // (only for typed sorts with min mode, or single-valued fields).
-func c06CheckOrder(m *State, ids []string, spec []string, typed bool) string {
+func c06CheckOrder(m *State, ids []string, spec []string, typed bool, missingFirst bool) string {
 	type key struct {
 		missing bool
 		s       string
@@ -642,10 +670,16 @@ func c06CheckOrder(m *State, ids []string, spec []string, typed bool) string {
 			switch {
 			case ka.missing && kb.missing:
 			case ka.missing:
-				c = 1 // missing last in both directions
+				c = 1 // missing last (or first) in both directions
+				if missingFirst {
+					c = -1
+				}
 				desc = false
 			case kb.missing:
 				c = -1
+				if missingFirst {
+					c = 1
+				}
 				desc = false
 			case ka.isNum && f == "d":
 				ai, _ := strconv.ParseInt(ka.s, 10, 64)
